@@ -186,7 +186,7 @@ def check(spec):
 
     def fresh():
         np.random.seed(5)
-        return treg.build(tspec)
+        return treg.build(tspec, factory=bool(spec.get("factory")))
     t0 = fresh()
     if not type(t0).supports_scale_strength():
         raise Refused("does not support strength scaling")
@@ -486,7 +486,7 @@ def pil_composition(draw):
 def _wrap(ts):
     return st.fixed_dictionaries({"t": ts, "fs": st.lists(FACTORS, min_size=1, max_size=5), "fg": st.tuples(FACTORS, FACTORS).map(list),
                                   "key": st.integers(0, 50), "clone_at": st.integers(0, 4),
-                                  "clone_how": st.sampled_from([None, None, "deepcopy", "pickle"])})
+                                  "clone_how": st.sampled_from([None, None, "deepcopy", "pickle"]), "factory": st.booleans()})
 
 
 def _leaf_facet(name):
